@@ -132,6 +132,10 @@ def check(ctx, fmt, ncols, table, via_validating_api, via_file=False, label=None
 
 
 def run(ctx):
+    # first thing in every worker process, before any file has been read: a very long cell through streams (what the csv
+    # module may read is a setting of the whole process)
+    check(ctx, (",", '"', '"', "minimal", "any"), 2, [["x" * 131073, "y"], ["z", "w" * 140000]], via_validating_api=False, via_file=False, label="very-long-cells-first-thing")
+    check(ctx, (";", "'", "\\", "all", "lf"), 2, [["x" * 131073, "y"]], via_validating_api=True, label="very-long-cells-first-thing")
     ctx.floor("roundtrips", 1000)
     per_format = ctx.pick(2, 60)
     formats = list(itertools.product(DELIMITERS, QUOTES, ESCAPES, QUOTINGS, LINE_DELIMITERS))
@@ -155,6 +159,9 @@ def run(ctx):
 
 
 def replay(ctx, case):
+    if case["table"] == "very-long-cells-first-thing":
+        check(ctx, tuple(case["format"]), 2, [["x" * 131073, "y"], ["z", "w" * 140000]], case["api"] == "Writer/rows", False, label="very-long-cells-first-thing")
+        return
     if case["table"] == "very-long-cells":
         fmt = tuple(case["format"])
         check(ctx, fmt, 2, [["x" * 131073, "y"], [fmt[1] * 70000, "z" * 200000 + "\n"]], False, case["api"] == "rowio-file", label="very-long-cells")
